@@ -27,7 +27,8 @@ CORPORA = {
     'unsorted-tags': [('tokenized', 'ab/V c/Y ab/N'), ('tokenized', 'c/X a b/P')],
     'single-token': [('tokenized', 'a/S'), ('tokenized', 'b/N a/T c'), ('tokenized', 'c/K')],
 }
-TAGDICT = {'none': [], 'dict': [('tokenized', 'zz/D1/D2 ab/Q c')]}
+# 'yy' is a dictionary-only token whose FIRST tag category is absent (only a later one is given)
+TAGDICT = {'none': [], 'dict': [('tokenized', 'zz/D1/D2 ab/Q c yy//E2')]}
 CFGS = [(1, 1, 1, 1), (2, 2, 2, 2), (2, 3, 1, 2), (1, 2, 2, 1)]
 CFGS_EDGE = [(0, 1, 0, 1), (1, 0, 1, 0), (0, 0, 0, 0)]      # zero windows / zero n-gram sizes: (some) occurrences have no feature at all
 BOUNDS = {
